@@ -210,3 +210,13 @@ Proof.
   - split; [vm_compute; discriminate|]. split; [vm_compute; reflexivity|].
     eexists. vm_compute. split; reflexivity.
 Qed.
+
+(* An argument temporary that aliases the variable's pool slot (a by-reference shortcut for string
+   arguments = the aliasing clone at that site): a later argument's evaluation overwrites the variable,
+   the slot is recycled, and the parameter is bound to the NEW bytes.  With the copying read the
+   temporary owns nothing (C02_clone_owns_nothing), so the overwrite cannot touch it. *)
+Example C02_refuted_aliasing_argument :
+  observe cfg_alias_clone p_arg_then_reassign = VOk [VStr (b_cc ++ b_dd)] /\
+  aobserve p_arg_then_reassign = Some [VStr (b_aa ++ b_bb)] /\
+  observe cfg_repaired p_arg_then_reassign = VOk [VStr (b_aa ++ b_bb)].
+Proof. vm_compute. repeat split. Qed.
